@@ -181,7 +181,7 @@ def validated_api(ctx, P):
             ctx.violation(ob, "R7.validated-sampling", "%s.%s" % (cls.name, fn.name), unparse(c.func), "unvalidated-sample",
                           "the raw Distribution.sample is used: a negative or non-numeric sample silently corrupts the run (sibling sites use _sample, which raises)", loc(c))
         tab, idx = tables[fn.name]
-        if unparse(c.func.value).replace(" ", "") != (tab + idx).replace(" ", ""):
+        if unparse(rules.inline_locals(fn, c.func.value)).replace(" ", "") != (tab + idx).replace(" ", ""):
             ctx.violation(ob, "R7.validated-sampling", "%s.%s" % (cls.name, fn.name), unparse(c.func.value), "wrong-distribution",
                           "the sample must come from %s%s (own node, own class)" % (tab, idx), loc(c))
     ctx.floor("engine sampling sites", len(seen), 5)
@@ -239,8 +239,10 @@ def service_duration(ctx, P, iters):
     for view in family_views(P, "Node"):
         for m in view.methods():
             cls, fn = view.resolve(m)
-            if cls.name == "PSNode" or m in ("release_blocked_individual", "reset_individual_attributes", "__init__"):
-                continue
+            if cls.name == "PSNode" or rules.effective_names(P, cls, fn) <= {"release_blocked_individual", "reset_individual_attributes", "__init__"}:
+                continue        # (restoring an interrupted customer's original dates is not a service start)
+            if m not in rules.ANCHOR_METHODS:
+                continue        # newly extracted helpers are analysed inside the pinned methods that call them
             if not any(isinstance(x, ast.Assign) and isinstance(x.targets[0], ast.Attribute) and x.targets[0].attr == "service_end_date" and unparse(x.value) not in ("False", "True") for x in ast.walk(fn)):
                 continue
 
